@@ -400,7 +400,7 @@ fn main() {
                         11 | 12 => call("symlink", &a, &b),
                         13 => {
                             // relative target spelling (taken relative to the link's directory)
-                            let t = ["x", "../a", "./b/c", "..", "a/../b"][rng.gen_range(0..5)];
+                            let t = ["x", "../a", "./b/c", "..", "a/../b", "~/x", "~", "$HOME/y", "sub/~/x"][rng.gen_range(0..9)];
                             call("symlink", &a, t)
                         },
                         14 | 15 => call("move_p", &a, &b),
